@@ -38,7 +38,12 @@ fn process_dec(token: Token) -> Result<Expression, ParserError> {
                 Ok(Expression::DoubleLiteral(u as f64))
             }
         }
-        Err(e) => Err(e.into()),
+        // too big for 32 bits, it is a double
+        Err(_) => token
+            .to_string()
+            .parse::<f64>()
+            .map(Expression::DoubleLiteral)
+            .map_err(|e| e.into()),
     }
 }
 
